@@ -27,7 +27,7 @@ RULE = (
     "per-mode transfer functions fft2(conc)/fft2(q0), fft2(flux)/fft2(q0) are compared with the Riccati/DOP853 reference of the "
     "continuous BVP. Admitted modes: r = max_i |T|dz_i^2/Kz <= 1 on the coarse grid, sum Re(lambda)dz <= 18 over the column and <= 8 up to the output height; components on the unpaired Nyquist row/column of even grids are compared with the real-part combination (H(k)+conj(H(k')))/2 of the reference, the error measured against the larger of the two parts (the relative rounding error of "
     "the decayed response at height z is ~ eps*exp(2*growth(z))). Assertions: (a) E(n) <= 6*delta(n), E(4n) <= 6*delta(4n), and E(4n) < E(n) unless E(4n) <= delta(4n) (a coarse-grid error can be accidentally small) or both < 1e-6, over all admitted modes; (b) rate "
-    "E(4n) <= max(E(n)/2.5, 1e-6) over admitted modes with r <= 0.5 on grids with delta <= 1 and at least 16 layers (E = max over the mode set of the "
+    "E(4n) <= max(E(n)/2.5, 1e-6) over admitted modes with r <= 0.5 on grids with delta <= 1 and at least 16 layers, unless the error grows more than two-fold while staying below delta(4n) - the signature of a coarse-grid error that is accidentally small - (E = max over the mode set of the "
     "larger of the relative conc- and flux-transfer errors). Non-trivial = >= 2 admitted modes, Kz(top)/Kz(z0) >= 2 and E(n) > 1e-5; "
     "distinct = canonical JSON."
 )
@@ -290,7 +290,13 @@ def check_case(c):
                 f"({gk} grid; relative layer thickness {delta:.3e} -> {delta4:.3e})")
     if delta <= 1.0 and n_half >= 1 and n0 >= 16:
         out.label("rate-asserted")
-        if not E_half[1] <= max(E_half[0] / 2.5, 1e-6):
+        # a coarse-grid error that is accidentally small (the error of a component changes sign between two grids) shows as
+        # an error that GROWS more than two-fold under refinement while staying below one relative layer thickness of the
+        # fine grid (seen on correct trees: 6.5e-4 -> 2.3e-3 at delta(4n) = 0.064); a stalled convergence has ratio ~1
+        accidental = E_half[1] > 2.0 * E_half[0] and E_half[1] <= delta4
+        if accidental:
+            out.label("coarse-error-accidentally-small")
+        if not (E_half[1] <= max(E_half[0] / 2.5, 1e-6) or accidental):
             out.bad(f"error shrinks only {E_half[0] / max(E_half[1], 1e-300):.2f}-fold when the layer thickness is quartered "
                     f"({E_half[0]:.3e} -> {E_half[1]:.3e}; {gk} grid, n={n0}, delta={delta:.3f}, family {c['fam']}, level {c['lvl_frac']})")
     kz0, kzt = float(fn[4](z0)), float(fn[4](ztop))
